@@ -159,12 +159,14 @@ Section WithTables.
         end
     end.
 
-  Definition findcase := (N * desc dkey * bytes * option N)%type.
-  Definition range8 : list N := [0; 1; 2; 3; 4; 5; 6; 7].
+  (* (id, descriptor, target script, first index and length of the searched range, the index
+     the implementation reported) *)
+  Definition findcase := (N * desc dkey * bytes * N * N * option N)%type.
+  Definition range_of (start len : N) : list N := map (fun k => start + N.of_nat k) (seq 0 (N.to_nat len)).
   Definition findcheck_code (c : findcase) : N :=
     match c with
-    | (_, d, target, impl) =>
-        let r := find_derivation_index_for_spk (fun dd => m_spk (m_derived dd)) d target range8 in
+    | (_, d, target, start, len, impl) =>
+        let r := find_derivation_index_for_spk (fun dd => m_spk (m_derived dd)) d target (range_of start len) in
         match r, impl with
         | KOk (Some (i, _)), Some j => if N.eqb i j then 0 else 1
         | KOk None, None | KErr _, None => 0
